@@ -187,7 +187,7 @@ func MapOrder(scopeEntries ...string) Rule {
 		} else {
 			r.Floor("map_range_loops", 8)
 		}
-		orderTaint(p, r, reach)
+		orderTaint(p, r, reach, effectful)
 		if specScope {
 			sortedPairs(p, r, reach)
 		}
@@ -209,7 +209,7 @@ func endsInPanic(b *ssa.BasicBlock) bool {
 	return false
 }
 
-func orderTaint(p *core.Prog, r *core.Report, reach map[*ssa.Function]bool) {
+func orderTaint(p *core.Prog, r *core.Report, reach map[*ssa.Function]bool, effectful map[*ssa.Function]bool) {
 	const rule = "MAP-ORDER"
 	returnsTainted := map[*ssa.Function]map[int]bool{}
 	isSlice := func(t types.Type) bool { _, ok := t.Underlying().(*types.Slice); return ok }
@@ -367,6 +367,101 @@ func orderTaint(p *core.Prog, r *core.Report, reach map[*ssa.Function]bool) {
 		})
 	}
 	r.Count("order_tainted_lists_rendered", n)
+	// (c) a loop over a list that was filled in map order inherits the order dependence: it may be left before
+	//     exhaustion only when its body produces no message (same rule as for ranges over maps)
+	nT := 0
+	seqT := map[string]int{}
+	for _, f := range p.Funcs {
+		if !reach[f] {
+			continue
+		}
+		t := taintOf(f)
+		if len(t) == 0 {
+			continue
+		}
+		fn := core.FuncName(f)
+		for _, L := range allLoopsOf(f) {
+			// header: the block of L that dominates all others; its condition compares with len(tainted)
+			var h *ssa.BasicBlock
+			for b := range L {
+				dom := true
+				for c := range L {
+					if !b.Dominates(c) {
+						dom = false
+						break
+					}
+				}
+				if dom {
+					h = b
+				}
+			}
+			if h == nil {
+				continue
+			}
+			iff, ok := h.Instrs[len(h.Instrs)-1].(*ssa.If)
+			if !ok {
+				continue
+			}
+			bo, ok := iff.Cond.(*ssa.BinOp)
+			if !ok {
+				continue
+			}
+			var list ssa.Value
+			for _, side := range []ssa.Value{bo.X, bo.Y} {
+				if c, ok := side.(*ssa.Call); ok {
+					if b, ok := c.Call.Value.(*ssa.Builtin); ok && b.Name() == "len" && t[c.Call.Args[0]] {
+						list = c.Call.Args[0]
+					}
+				}
+			}
+			if list == nil {
+				continue
+			}
+			nT++
+			var exit *ssa.BasicBlock
+			for b := range L {
+				if b == h {
+					continue
+				}
+				for _, s := range b.Succs {
+					if !L[s] && !endsInPanic(s) {
+						exit = b
+					}
+				}
+			}
+			base := fn + ":range over a list built in map order (" + describeTaint(list) + ")"
+			seqT[base]++
+			key := base
+			if seqT[base] > 1 {
+				key = fmt.Sprintf("%s#%d", base, seqT[base])
+			}
+			if exit == nil {
+				r.OK(rule, key, p.Pos(posOf(iff, f)), "the loop over the map-ordered list runs to exhaustion")
+				continue
+			}
+			why := ""
+			for b := range L {
+				for _, ins := range b.Instrs {
+					switch x := ins.(type) {
+					case ssa.CallInstruction:
+						if g := x.Common().StaticCallee(); g != nil && p.InSubject(g) && effectful[g] {
+							why = "calls " + core.FuncName(g)
+						}
+					case *ssa.Store:
+						if fa, ok := x.Addr.(*ssa.FieldAddr); ok && isResultPtr(fa.X.Type()) {
+							why = "writes a Result"
+						}
+					}
+				}
+			}
+			if why == "" {
+				r.OK(rule, key, p.Pos(posOf(iff, f)), "left early, but no message is produced inside the loop")
+			} else {
+				r.Bad(rule, key, p.Pos(posOf(exit.Instrs[len(exit.Instrs)-1], f)), "a loop over a list that was filled in map iteration order is left before exhaustion while its body "+why+": which messages are reported differs from run to run")
+			}
+		}
+	}
+	r.Count("order_tainted_list_loops", nT)
 }
 
 func fromTaintedElem(v ssa.Value, t map[ssa.Value]bool, d int) bool {
